@@ -246,7 +246,7 @@ def scn_gmrf_sequence(N):
             tm, _ = treemodels.build_timetree(tree, names, [0.0] * T, h1)
             g = gm.GMRF("gmrf", Parameter("x", x), Parameter("tau", tau), tm)
             g()
-            tm._internal_heights.tensor = h2
+            treemodels.tree_parameter(tm).tensor = h2
             second = g()
             tm2, _ = treemodels.build_timetree(tree, names, [0.0] * T, h2)
             fresh = gm.GMRF("gmrf2", Parameter("x", x), Parameter("tau", tau), tm2)()
@@ -330,7 +330,7 @@ def _history_world(kind):
             tau = Parameter("tau", taus[idx[1]].clone())
             tm, _ = treemodels.build_timetree(tree, names, tips, heights[idx[2]].clone())
             m = gm.GMRF("g", x, tau, tm)
-            return (lambda: m()), [x, tau, tm._internal_heights], {"node_heights": (lambda: tm.node_heights)}, [fields, taus, heights]
+            return (lambda: m()), [x, tau, treemodels.tree_parameter(tm)], {"node_heights": (lambda: tm.node_heights)}, [fields, taus, heights]
         if kind == "gmrf.covariate":
             tau = Parameter("tau", taus[idx[1]].clone())
             beta = Parameter("beta", betas[idx[2]].clone())
@@ -340,11 +340,11 @@ def _history_world(kind):
         if kind == "gmrf.integrated.timeaware":
             tm, _ = treemodels.build_timetree(tree, names, tips, heights[idx[1]].clone())
             m = gi.GMRFGammaIntegrated("g", x, 1.5, 0.8, tm)
-            return (lambda: m()), [x, tm._internal_heights], {"node_heights": (lambda: tm.node_heights)}, [fields, heights]
+            return (lambda: m()), [x, treemodels.tree_parameter(tm)], {"node_heights": (lambda: tm.node_heights)}, [fields, heights]
         if kind == "coalescent.integrated":
             tm, _ = treemodels.build_timetree(tree, names, tips, heights[idx[0]].clone())
             m = co.ConstantCoalescentIntegratedModel("c", tm, 1.5, 0.8)
-            return (lambda: m()), [tm._internal_heights], {"node_heights": (lambda: tm.node_heights)}, [heights]
+            return (lambda: m()), [treemodels.tree_parameter(tm)], {"node_heights": (lambda: tm.node_heights)}, [heights]
         raise ValueError(kind)
     return make
 
